@@ -104,19 +104,19 @@ def cell_targets(cell, target):
     return list(cell)
 
 
-def raw_values(kind, k, seed):
+def raw_values(kind, k, seed, scale=None):
     if kind in ("ORD", "CAT"):
         return names_for(seed, max(k, 1))[:k]
     if kind == "QNT":
-        a, b = scale_for(seed)
+        a, b = scale if scale is not None else scale_for(seed)
         return [a * (i + 1) + b for i in range(k)]
     if kind == "NUMCAT":
         return [float(i + 1) if i % 2 else int(i + 1) for i in range(k)]
     raise ValueError(kind)
 
 
-def materialize(kind, cells, nan_cell, seed, target="binary", feature="f", classes=None):
-    vals = raw_values(kind, len(cells), seed)
+def materialize(kind, cells, nan_cell, seed, target="binary", feature="f", classes=None, scale=None):
+    vals = raw_values(kind, len(cells), seed, scale)
     xs, ys = [], []
     for v, c in zip(vals, cells):
         t = cell_targets(c, target)
@@ -208,13 +208,13 @@ def build_frames(case):
     target = target_of(case)
     cells = [tuple(c) for c in case["cells"]]
     nan = tuple(case["nan"]) if case.get("nan") is not None else None
-    X, y, vals = materialize(case["kind"], cells, nan, case.get("seed", 0), target, classes=case.get("classes"))
+    X, y, vals = materialize(case["kind"], cells, nan, case.get("seed", 0), target, classes=case.get("classes"), scale=case.get("scale"))
     Xd = yd = None
     dev = case.get("dev")
     if dev is not None:
         dcells = [tuple(c) for c in dev["cells"]]
         dnan = tuple(dev["nan"]) if dev.get("nan") is not None else None
-        Xd, yd, _ = materialize(case["kind"], dcells, dnan, case.get("seed", 0), target, classes=case.get("classes"))
+        Xd, yd, _ = materialize(case["kind"], dcells, dnan, case.get("seed", 0), target, classes=case.get("classes"), scale=case.get("scale"))
     return X, y, Xd, yd, vals
 
 
